@@ -34,6 +34,9 @@ def check(ctx):
     fifo(ctx, P, views, iters)
     disarm(ctx, P, views, iters)
     blocked_flag(ctx, P, views, iters)
+    # a blocked customer keeps its server across a non-pre-emptive shift change as well: busy servers are only marked off duty
+    from . import c12
+    c12.off_duty(ctx, P, views, iters)
     ctx.assume("only in-repo node classes; configuration flags immutable after __init__ (checked)")
     ctx.assume("PS nodes have an integer capacity (no Schedule)")
 
@@ -281,6 +284,12 @@ def disarm(ctx, P, views, iters):
                             if inner and all(id(y) in inside for y in inner):
                                 okk = True
             ob3.ok("%s:scan-filter" % view.name, "for ind in all_individuals: if not ind.is_blocked ...")
+            from .. import scans as _scans
+            for sc in _scans.find_scans(fn):
+                v_ = unparse(sc.loop.target)
+                for arm, nm in [(sc.arm, "reset")] + [(t, "tie") for t in sc.ties]:
+                    if _scans.arm_condition(sc, arm).get(("truth", v_ + ".is_blocked")) is not False:
+                        okk = False
             if not okk:
                 ctx.violation(ob3, "R6.filter", "%s.update_next_end_service_without_server" % cls.name, "not ind.is_blocked filter", "blocked-not-filtered",
                               "at a node without server objects a blocked customer would be selected for end_service again", loc(fn))
